@@ -91,6 +91,38 @@ class Stats:
         return self._samples + th
 
 
+SITE_NAMES = {
+    0: "inherent.rs rank: containers.get_unchecked(i)",
+    1: "scalar::or lhs[i]", 2: "scalar::or rhs[j]", 3: "scalar::and lhs[i]", 4: "scalar::and rhs[j]",
+    5: "scalar::sub lhs[i]", 6: "scalar::sub rhs[j]", 7: "scalar::xor lhs[i]", 8: "scalar::xor rhs[j]",
+    9: "ArrayStore::retain slice[pos]", 10: "from_lsb0_bytes_unchecked read_unaligned (needs 8192 bytes)",
+    11: "from_lsb0_bytes_unchecked byte view of the word array", 12: "BitmapIter::advance_to bits[new_key]",
+    13: "BitmapIter::advance_back_to bits[new_key]", 14: "BitmapIter::next bits[key]", 15: "BitmapIter::next_back bits[key_back]",
+}
+
+
+def collect_sites(acc, lines):
+    """accumulate `sites=id:count:maxidx:minslack,...` records printed by the harness"""
+    for ln in lines:
+        m = re.search(r"sites=([0-9:,]+)", ln)
+        if not m:
+            continue
+        for rec in m.group(1).split(","):
+            f = rec.split(":")
+            if len(f) != 4:
+                continue
+            i, c, mx, sl = map(int, f)
+            a = acc.setdefault(i, [0, 0, 1 << 62])
+            a[0] += c
+            a[1] = max(a[1], mx)
+            a[2] = min(a[2], sl)
+
+
+def sites_summary(acc):
+    return {"%d %s" % (i, SITE_NAMES.get(i, "?")): {"accesses": acc[i][0], "max_index": acc[i][1], "min_slack": acc[i][2]}
+            for i in sorted(acc)} | {"never_hit": [SITE_NAMES[i] for i in SITE_NAMES if i not in acc]}
+
+
 def only(*kinds):
     ks = set(kinds)
     return lambda op: op.split(" ")[0] in ks
